@@ -1001,7 +1001,13 @@ func (e *env) genHostileOuter(rng *rand.Rand) *input {
 		feat = "topic"
 	case k <= 9 && post:
 		payload := vsim.EncodeSSV(m.SSV)
-		switch rng.Intn(7) {
+		switch rng.Intn(8) {
+		case 7:
+			// a registered operator whose stored public key is undecodable, named again and again over the child's life
+			sig := make([]byte, 256)
+			rng.Read(sig)
+			wire = commons.EncodeSignedSSVMessage(payload, []spectypes.OperatorID{vsim.BadKeyOperatorA, vsim.BadKeyOperatorB}[rng.Intn(2)], sig)
+			feat = "envelope-operator-with-undecodable-registered-key"
 		case 0:
 			wire = commons.EncodeSignedSSVMessage(payload, 0, make([]byte, 256))
 			feat = "envelope-zero"
